@@ -174,7 +174,7 @@ def linearisations(items, limit=5000):
             if k == 'F':
                 w = it[1] if isinstance(it[1], int) else 'V'
                 res = [p + (w,) for p in res]
-            elif k == 'L':
+            elif k in ('L', 'CALL'):
                 sub = lin(it[2])
                 res = [p + q for p in res for q in sub]
             elif k == 'I':
@@ -212,7 +212,7 @@ def expand_slots(P, items, mode):
         elif it[0] == 'L':
             out.append(('L', it[1], expand_slots(P, it[2], mode)))
         elif it[0] == 'I':
-            out.append(('I', it[1], expand_slots(P, it[2], mode), expand_slots(P, it[3], mode)))
+            out.append(('I', it[1], expand_slots(P, it[2], mode), expand_slots(P, it[3], mode)) + tuple(it[4:]))
         elif it[0] == 'SW':
             out.append(('SW', it[1], {k: expand_slots(P, v, mode) for k, v in it[2].items()}))
         else:
@@ -280,10 +280,18 @@ def _dist(a, b):
 def _drop_calls_to(items):
     """the setup header text refers to the codebook section for each codebook: the inlined codebook layout is removed,
     recognised as the loop whose body starts with the 24-bit sync constant"""
+    def first_field(its):
+        for x in its:
+            if x[0] == 'F':
+                return x
+            if x[0] == 'CALL':
+                return first_field(x[2])
+            return None
+        return None
     out = []
     for it in items:
-        if it[0] == 'L' and it[2] and it[2][0][0] == 'F' and it[2][0][1] == 24 and isinstance(it[2][0][2], tuple) \
-                and it[2][0][2][0] == 'const':
+        f0 = first_field(it[2]) if it[0] == 'L' and it[2] else None
+        if f0 is not None and f0[1] == 24 and isinstance(f0[2], tuple) and f0[2][0] == 'const':
             continue
         out.append(it)
     return out
